@@ -7,6 +7,8 @@ import (
 	"go/token"
 	"go/types"
 	"golang.org/x/tools/go/packages"
+	"path/filepath"
+	"sort"
 	"strings"
 )
 
@@ -221,6 +223,29 @@ func c17Run(r *Run) {
 						}
 						return true
 					})
+					if ctor == "" {
+						// return uintToScriptValue(v.Uint()): a package helper builds the script value (after a range test)
+						ast.Inspect(cc, func(m ast.Node) bool {
+							ce, ok := m.(*ast.CallExpr)
+							if !ok || ctor != "" {
+								return true
+							}
+							for _, hd := range funcDecls(rp) {
+								if hd.Body == nil || info.Defs[hd.Name] != calleeOf(info, ce) {
+									continue
+								}
+								ast.Inspect(hd.Body, func(k ast.Node) bool {
+									if he, ok := k.(*ast.CallExpr); ok {
+										if cal, ok := calleeOf(info, he).(*types.Func); ok && cal.Pkg() != nil && cal.Pkg().Path() == modPath+"/data" && strings.HasPrefix(cal.Name(), "New") && ctor == "" {
+											ctor = cal.Name()
+										}
+									}
+									return true
+								})
+							}
+							return true
+						})
+					}
 					for _, k := range cc.List {
 						covered[strings.TrimPrefix(exprStr(k), "reflect.")] = ctor
 					}
@@ -305,6 +330,8 @@ func c17Run(r *Run) {
 		})
 	}
 	c17KindTables(r, rp)
+	r.curRule = "C17-NARROW"
+	c17SignedToUnsigned(r, rp)
 	// NARROW: utils generic converters
 	r.curRule = "C17-NARROW"
 	uinfo := up.TypesInfo
@@ -1148,6 +1175,137 @@ func c17IntRoute(r *Run, pkgs ...*packages.Package) {
 				}
 				return true
 			})
+		}
+	}
+}
+
+// c17SignedToUnsigned (C17-NARROW, clause #signed-to-unsigned): in the reflect bridge a script integer
+// (signed) that becomes a Go unsigned value is tested for its sign first — uint64(-1) is
+// 18446744073709551615, and reflect's OverflowUint sees only the converted value. Judged: conversions
+// T(x) with T unsigned, x a signed integer variable, outside if-conditions (a conversion inside a
+// range test is the test's own argument); discharged when on every path to it a comparison of x with
+// a constant (<, <=, >, >=) has been evaluated.
+func c17SignedToUnsigned(r *Run, rp *packages.Package) {
+	info := rp.TypesInfo
+	isUnsigned := func(t types.Type) bool {
+		b, ok := t.Underlying().(*types.Basic)
+		return ok && b.Info()&types.IsUnsigned != 0
+	}
+	isSigned := func(t types.Type) bool {
+		b, ok := t.Underlying().(*types.Basic)
+		return ok && b.Info()&types.IsInteger != 0 && b.Info()&types.IsUnsigned == 0
+	}
+	type st map[types.Object]bool
+	for _, fd := range funcDecls(rp) {
+		file := filepath.Base(r.Fset.Position(fd.Pos()).Filename)
+		if !strings.HasPrefix(file, "reflect") || fd.Body == nil {
+			continue
+		}
+		// conversions inside conditions
+		inCond := map[ast.Node]bool{}
+		ast.Inspect(fd.Body, func(n ast.Node) bool {
+			if is, ok := n.(*ast.IfStmt); ok {
+				ast.Inspect(is.Cond, func(m ast.Node) bool {
+					if m != nil {
+						inCond[m] = true
+					}
+					return true
+				})
+			}
+			return true
+		})
+		fk := funcKey(rp, fd)
+		verdict := map[token.Pos]bool{}
+		name := map[token.Pos]string{}
+		h := &Hooks{Info: info}
+		h.Copy = func(s State) State {
+			n := st{}
+			for k := range s.(st) {
+				n[k] = true
+			}
+			return n
+		}
+		h.Join = func(a, b State) State {
+			n := st{}
+			for k := range a.(st) {
+				if b.(st)[k] {
+					n[k] = true
+				}
+			}
+			return n
+		}
+		h.Equal = func(a, b State) bool {
+			if len(a.(st)) != len(b.(st)) {
+				return false
+			}
+			for k := range a.(st) {
+				if !b.(st)[k] {
+					return false
+				}
+			}
+			return true
+		}
+		h.Cond = func(e ast.Expr, truth bool, s State) State {
+			if be, ok := ast.Unparen(e).(*ast.BinaryExpr); ok {
+				switch be.Op {
+				case token.LSS, token.LEQ, token.GTR, token.GEQ:
+					for _, pair := range [][2]ast.Expr{{be.X, be.Y}, {be.Y, be.X}} {
+						if id, ok := ast.Unparen(pair[0]).(*ast.Ident); ok {
+							if tv, ok := info.Types[pair[1]]; ok && tv.Value != nil {
+								s.(st)[info.Uses[id]] = true
+							}
+						}
+					}
+				}
+			}
+			return s
+		}
+		h.Stmt = func(stm ast.Stmt, s State) State {
+			if as, ok := stm.(*ast.AssignStmt); ok {
+				for _, l := range as.Lhs {
+					if id, ok := l.(*ast.Ident); ok {
+						delete(s.(st), info.ObjectOf(id))
+					}
+				}
+			}
+			return s
+		}
+		h.Visit = func(e ast.Expr, s State) State {
+			c, ok := e.(*ast.CallExpr)
+			if !ok || len(c.Args) != 1 || inCond[c] {
+				return s
+			}
+			tv, ok := info.Types[c.Fun]
+			if !ok || !tv.IsType() || !isUnsigned(tv.Type) {
+				return s
+			}
+			id, ok := ast.Unparen(c.Args[0]).(*ast.Ident)
+			if !ok || !isSigned(info.TypeOf(id)) {
+				return s
+			}
+			if atv, ok := info.Types[c.Args[0]]; ok && atv.Value != nil {
+				return s
+			}
+			tested := s.(st)[info.Uses[id]]
+			if prev, seen := verdict[c.Pos()]; !seen || (prev && !tested) {
+				verdict[c.Pos()] = tested
+			}
+			name[c.Pos()] = exprStr(c)
+			return s
+		}
+		WalkFunc(h, fd.Body, st{})
+		var ps []token.Pos
+		for p := range verdict {
+			ps = append(ps, p)
+		}
+		sort.Slice(ps, func(i, j int) bool { return ps[i] < ps[j] })
+		for _, p := range ps {
+			key := fk + "#signed-to-unsigned:" + strings.ReplaceAll(name[p], " ", "")
+			if verdict[p] {
+				r.ok(key, p, name[p]+": the signed value has been compared with a constant on every path to the conversion")
+			} else {
+				r.bad(key, p, name[p]+": a signed script integer is converted to an unsigned Go type without its sign having been tested: a negative argument arrives as a huge positive number (reflect's OverflowUint sees only the converted value)")
+			}
 		}
 	}
 }
